@@ -4,6 +4,7 @@
 package vsync
 
 import (
+	"os"
 	"sync"
 
 	"connectrpc.com/conformance/internal/verif/gate"
@@ -16,6 +17,11 @@ type (
 	Pool      = sync.Pool
 	Map       = sync.Map
 )
+
+// gateUnlock makes Unlock a scheduling point of its own (after the lock has been
+// released), so that another goroutine can run between an Unlock and whatever the
+// unlocking goroutine does next. Off by default: it multiplies the schedule space.
+var gateUnlock = os.Getenv("VERIF_GATE_UNLOCK") == "1"
 
 type Mutex struct {
 	init sync.Once
@@ -51,6 +57,9 @@ func (m *Mutex) Unlock() {
 		panic("vsync: unlock of unlocked mutex")
 	}
 	gate.Poke()
+	if gateUnlock {
+		gate.ShimPoint("Unlock", nil)
+	}
 }
 
 // Held reports whether the mutex is currently held (for observers at quiescence).
